@@ -95,11 +95,14 @@ def aggregationH (j : Json) : R Json := do
     jObj [("id", jStr r.idStr), ("parts", jList jStr r.parts), ("pos", jNat r.pos), ("bw", jF r.bw),
           ("N", jList (jOpt jInt) r.n), ("M", jList (jOpt jInt) r.m)]) out
 
-def removeWhileH (j : Json) : R Json := do
-  let flags ← fList getBool j "cond"
-  let idx := List.range flags.length
-  let kept := removeWhileIterating (fun i => flags.getD i false) idx
-  return jList jNat kept
+def aggregationDH (j : Json) : R Json := do
+  let arr ← getArr (← fld j "requests")
+  let rs ← (arr.zip (List.range arr.length)).mapM (fun x => getAReq x.2 x.1)
+  let ds ← fList (fun d => do return ({ id := ← fStr d "id", reqs := ← fList getStr d "reqs" } : Disj)) j "disjunctions"
+  let (out, dso) := requestsAggregationD rs ds
+  return jObj [("requests", jList (fun (r : AReq String Float) =>
+                  jObj [("id", jStr r.idStr), ("bw", jF r.bw), ("N", jList (jOpt jInt) r.n), ("M", jList (jOpt jInt) r.m)]) out),
+               ("disjunctions", jList (fun (d : Disj) => jObj [("id", jStr d.id), ("reqs", jList jStr d.reqs)]) dso)]
 
 def getModeInfo (j : Json) : R (ModeInfo Float) := do
   return { trxType := ← fStr j "trx_type", format := ← fStr j "format", osnr := ← fF j "osnr",
@@ -118,6 +121,6 @@ def csvH (j : Json) : R Json := do
   return Json.arr out.toArray
 
 def handlers : List (String × Handler) :=
-  [("c19.results", resultsH), ("c19.aggregation", aggregationH), ("c19.remove_while", removeWhileH), ("c19.csv", csvH)]
+  [("c19.results", resultsH), ("c19.aggregation", aggregationH), ("c19.aggregation_d", aggregationDH), ("c19.csv", csvH)]
 
 end Gnpy.Drv.C19
